@@ -7,8 +7,9 @@ After a **down**-switch both streams are down-sampling streams (`poly_fir_fade_d
 old one *exactly* doubled: clock, increment and slew increment are shifted left by one, and so is `len` provided
 `occupancy0` is a multiple of the coarser stage's sample (`2^sn` input frames).  Two exactly doubled streams take the
 same decisions in `poly_fir_fade_d` — same number of pairs, same abandoned pair — and stay exactly doubled; so the
-assertion holds in every chunk of such a fade.  The hypothesis on `occupancy0` is what F35 violates (an up-switch earlier in
-the same `vr_process` call made a coarser stage the coarsest *after* `occupancy0` had been computed).
+assertion holds in every chunk of such a fade.  The hypothesis on `occupancy0` is what F35 violated (an up-switch earlier in
+the same `vr_process` call made a coarser stage the coarsest *after* `occupancy0` had been computed); since the repair
+(`alignOcc`) it is an invariant of the loop: `chunk_OccInv`, `loop_OccInv`, `chunk_down_switch_aligned`.
 -/
 namespace Soxr.Vr
 variable {ρ : Type}
@@ -157,5 +158,185 @@ theorem switch_down_doubled (s : St ρ) (occ0 : Int) (hsn : 1 ≤ s.cur.sn) (hd 
     rw [Int.mul_ediv_cancel _ (Int.ne_of_gt hp)]
   · rw [h10]; simp; omega
   · rw [h7]; decide
+
+/-! ### `occupancy0` stays a whole number of samples of the current stage (the repair of F35 as a loop invariant) -/
+
+/-- what the loop of `vr_process` maintains: `occupancy0` is a whole number of samples of the current stage, and the
+    current stream's `len` is `occupancy0` in those samples -/
+def OccInv (l : LoopSt ρ) : Prop :=
+  (0 ≤ l.st.cur.sn → l.occ % 2 ^ l.st.cur.sn.toNat = 0) ∧ l.st.cur.len = shiftr l.occ l.st.cur.sn
+
+theorem stageDif_cases (s : St ρ) : stageDif s = 0 ∨ stageDif s = 1 ∨ (stageDif s = -1 ∧ s.cur.isD = true) := by
+  unfold stageDif
+  split
+  · split
+    · rename_i hd
+      split
+      · right; left; rfl
+      · split
+        · right; right; exact ⟨rfl, hd⟩
+        · left; rfl
+    · split
+      · right; left; rfl
+      · left; rfl
+  · left; rfl
+
+theorem fadeStreams_len (c f : Stream) (n : Nat) : (fadeStreams c f n).1.len = c.len := by
+  unfold fadeStreams
+  split
+  · exact (firD_spec c n).choose_spec.2.2.2.2.2.2.2
+  · split
+    · exact (firD_spec c n).choose_spec.2.2.2.2.2.2.2
+    · exact (fadeU_spec c (firD f n).2).choose_spec.2.2.2.2.2.2.2
+
+theorem kernels_len (s : St ρ) (olen mn mx : Int) : (kernels s olen mn mx).st.cur.len = s.cur.len := by
+  unfold kernels
+  split
+  · exact fadeStreams_len _ _ _
+  · split
+    · exact (firD_spec s.cur (2 * olen).toNat).choose_spec.2.2.2.2.2.2.2
+    · exact (firU_spec olen.toNat s.cur).2.2.2.2.2.1
+
+theorem chunkStart_cur (cfg : Cfg ρ) (s : St ρ) (rem : Nat) :
+    (chunkStart cfg s rem).1.cur.sn = s.cur.sn ∧ (chunkStart cfg s rem).1.cur.len = s.cur.len := by
+  unfold chunkStart
+  dsimp only
+  split
+  · exact ⟨rfl, rfl⟩
+  · split <;> exact ⟨rfl, rfl⟩
+
+theorem alignOcc_up (occ0 sn : Int) (h : 0 ≤ sn + 1) : alignOcc occ0 sn 1 % 2 ^ (sn + 1).toNat = 0 := by
+  unfold alignOcc
+  split
+  · exact Int.mul_emod_left _ _
+  · rename_i hn
+    have : sn + 1 = 0 := by omega
+    rw [this]
+    simp
+
+theorem alignOcc_down (occ0 sn : Int) : alignOcc occ0 sn (-1) = occ0 := by
+  unfold alignOcc
+  rw [if_neg (by omega)]
+
+theorem pow_dvd_of_succ (x : Int) (k : Nat) (h : x % 2 ^ (k + 1) = 0) : x % 2 ^ k = 0 := by
+  have hd : (2 : Int) ^ (k + 1) ∣ x := Int.dvd_of_emod_eq_zero h
+  have h2 : (2 : Int) ^ k ∣ 2 ^ (k + 1) := ⟨2, by rw [Int.pow_succ]⟩
+  exact Int.emod_eq_zero_of_dvd (Int.dvd_trans h2 hd)
+
+/-- **Every chunk preserves the alignment of `occupancy0`** — whatever it does: snap, up-switch (re-aligned), down-switch
+    (a whole number of coarser samples is a whole number of finer ones), fade, plain interpolation. -/
+theorem chunk_OccInv (cfg : Cfg ρ) (olen0 : Nat) (l : LoopSt ρ) (h : OccInv l) : OccInv (chunk cfg olen0 l).1 := by
+  obtain ⟨h1, h2⟩ := h
+  obtain ⟨a1, a2⟩ := chunkStart_cur cfg l.st (olen0 - l.od0)
+  unfold OccInv chunk
+  dsimp only
+  generalize hA : chunkStart cfg l.st (olen0 - l.od0) = A at a1 a2
+  have hfin : ∀ (sw shl : Bool) (K : KRes ρ), (chunkFinish l sw shl K).st.cur = K.st.cur := by
+    intro sw shl K; unfold chunkFinish; dsimp only; split <;> rfl
+  rw [hfin, kernels_len]
+  have hsn : ∀ (S : St ρ) (o m1 m2 : Int), (kernels S o m1 m2).st.cur.sn = S.cur.sn := fun S o m1 m2 =>
+    (kernels_spec S o m1 m2).2.2.2.2.2.1
+  rw [hsn]
+  by_cases hsw : doesSwitch A.1 = true
+  · rw [if_pos hsw, if_pos hsw]
+    obtain ⟨_, _, _, _, _, _, _, _, s9, _⟩ := switchStage_spec A.1 (stageDif A.1) (alignOcc l.occ A.1.cur.sn (stageDif A.1))
+    rw [s9, switchStage_len]
+    refine ⟨fun hpos => ?_, rfl⟩
+    rcases stageDif_cases A.1 with hd | hd | ⟨hd, _⟩
+    · unfold doesSwitch at hsw; rw [hd] at hsw; simp at hsw
+    · rw [hd] at hpos ⊢
+      exact alignOcc_up _ _ hpos
+    · rw [hd] at hpos ⊢
+      rw [alignOcc_down]
+      have hge : 0 ≤ l.st.cur.sn := by rw [← a1]; omega
+      have := h1 hge
+      rw [← a1] at this
+      obtain ⟨k, hk⟩ := Int.eq_ofNat_of_zero_le hpos
+      have e : A.1.cur.sn = ((k + 1 : Nat) : Int) := by omega
+      rw [e, Int.toNat_natCast] at this
+      rw [hk, Int.toNat_natCast]
+      exact pow_dvd_of_succ _ _ this
+  · have hsw' : doesSwitch A.1 = false := by
+      cases hx : doesSwitch A.1 with
+      | false => rfl
+      | true => exact absurd hx hsw
+    rw [hsw']
+    simp only [Bool.false_eq_true, if_false]
+    rw [a1, a2]
+    exact ⟨h1, h2⟩
+
+/-- … so it holds after the whole `while` loop if it held before it -/
+theorem loop_OccInv (cfg : Cfg ρ) (olen0 : Nat) (f : Nat) (l : LoopSt ρ) (h : OccInv l) : OccInv (loop cfg olen0 f l) :=
+  loop_induct cfg olen0 OccInv (fun l hl _ => chunk_OccInv cfg olen0 l hl) f l h
+
+theorem shiftl_dvd (x mx sn : Int) (h0 : 0 ≤ sn) (h : sn ≤ mx) : shiftl x mx % 2 ^ sn.toNat = 0 := by
+  unfold shiftl shiftr
+  by_cases hm : mx = 0
+  · have : sn = 0 := by omega
+    rw [this]; simp
+  · rw [if_pos (by omega)]
+    obtain ⟨k, hk⟩ := Int.eq_ofNat_of_zero_le h0
+    obtain ⟨d, hd⟩ := Int.eq_ofNat_of_zero_le (show 0 ≤ mx - sn by omega)
+    have e : (- -mx).toNat = k + d := by omega
+    rw [e, hk, Int.toNat_natCast, Int.pow_add, ← Int.mul_assoc, Int.mul_comm (x * 2 ^ k), Int.mul_comm x,
+      Int.mul_comm (2 ^ d), Int.mul_assoc]
+    exact Int.mul_emod_right _ _
+
+theorem setLens_cur (s : St ρ) (occ0 : Int) :
+    (setLens s occ0).cur.sn = s.cur.sn ∧ (setLens s occ0).cur.len = shiftr occ0 s.cur.sn := by
+  unfold setLens; dsimp only; split <;> exact ⟨rfl, rfl⟩
+
+/-- **`vr_process` enters its loop with `occupancy0` aligned** — from any state: it is computed from the coarsest stage in
+    use, which is at least as coarse as the current one. -/
+theorem preLoop_OccInv (cfg : Cfg ρ) (s : St ρ) (olen0 : Nat) : OccInv (preLoop cfg s olen0).1 := by
+  unfold preLoop OccInv
+  dsimp only
+  generalize hX : inputStages _ _ _ = X
+  have hc : X.cur = (applyDefault cfg s).cur ∧ X.fade = (applyDefault cfg s).fade ∧ X.fo = (applyDefault cfg s).fo := by
+    have : X.ctl = ({ applyDefault cfg s with oocc := (applyDefault cfg s).oocc + olen0 } : St ρ).ctl := by
+      rw [← hX, inputStages_ctl]
+    exact ⟨congrArg Ctl.cur this, congrArg Ctl.fade this, congrArg Ctl.fo this⟩
+  generalize hY : (if X.fl > 0 then ({ X with fl := -1 } : St ρ) else X) = Y
+  have hy : Y.cur = X.cur := by rw [← hY]; split <;> rfl
+  obtain ⟨e1, e2⟩ := setLens_cur Y (shiftl (max 0 ((Y.stg (if (applyDefault cfg s).fade ≠ 0 then max (applyDefault cfg s).cur.sn (applyDefault cfg s).fo.sn
+      else (applyDefault cfg s).cur.sn)).occ - 4 * (H2 : Int))) (if (applyDefault cfg s).fade ≠ 0 then max (applyDefault cfg s).cur.sn (applyDefault cfg s).fo.sn
+      else (applyDefault cfg s).cur.sn))
+  refine ⟨fun hpos => ?_, by rw [e1]; exact e2⟩
+  rw [e1] at hpos ⊢
+  apply shiftl_dvd _ _ _ hpos
+  rw [hy, hc.1]
+  split <;> omega
+
+/-- **A down-switch anywhere in the loop starts an aligned fade.**  In any chunk of any `vr_process` call whose loop state
+    satisfies the invariant, a switch from a down-sampling stage `sn ≥ 1` to the next finer one makes the two streams
+    exact doubles, the chunk counts no mismatch (`odone == odone2`), and they are exact doubles after it. -/
+theorem chunk_down_switch_aligned (cfg : Cfg ρ) (olen0 : Nat) (l : LoopSt ρ) (h : OccInv l)
+    (hsw : doesSwitch (chunkStart cfg l.st (olen0 - l.od0)).1 = true)
+    (hdif : stageDif (chunkStart cfg l.st (olen0 - l.od0)).1 = -1) (hsn : 1 ≤ l.st.cur.sn) :
+    (chunk cfg olen0 l).1.nmis = l.nmis ∧ Doubled (chunk cfg olen0 l).1.st.cur (chunk cfg olen0 l).1.st.fo := by
+  obtain ⟨h1, h2⟩ := h
+  obtain ⟨a1, a2⟩ := chunkStart_cur cfg l.st (olen0 - l.od0)
+  have hisd : (chunkStart cfg l.st (olen0 - l.od0)).1.cur.isD = true := by
+    rcases stageDif_cases (chunkStart cfg l.st (olen0 - l.od0)).1 with hd | hd | ⟨_, hd⟩
+    · omega
+    · omega
+    · exact hd
+  unfold chunk
+  dsimp only
+  generalize hA : chunkStart cfg l.st (olen0 - l.od0) = A at a1 a2 hsw hdif hisd
+  simp only [hsw, hdif, if_true, alignOcc_down]
+  have hdiv : l.occ % 2 ^ A.1.cur.sn.toNat = 0 := by rw [a1]; exact h1 (by omega)
+  obtain ⟨d1, d2, d3, d4⟩ := switch_down_doubled A.1 l.occ (by omega) hisd (by rw [a1, a2]; exact h2) hdiv
+  obtain ⟨k1, k2⟩ := kernels_doubled (switchStage A.1 (-1) l.occ) A.2 (chunkMn l (-1))
+    (chunkMx l (-1) (decide (A.1.cur.sn + -1 < A.1.ns))) d4 d2 d3 d1
+  have hfin : ∀ (sw shl : Bool) (K : KRes ρ), (chunkFinish l sw shl K).st.cur = K.st.cur ∧
+      (chunkFinish l sw shl K).st.fo = K.st.fo ∧ (chunkFinish l sw shl K).nmis = l.nmis + (if K.mis then 1 else 0) := by
+    intro sw shl K; unfold chunkFinish; dsimp only; split <;> exact ⟨rfl, rfl, rfl⟩
+  obtain ⟨f1, f2, f3⟩ := hfin true (true && negLeftShift A.1 (-1)) (kernels (switchStage A.1 (-1) l.occ) A.2 (chunkMn l (-1))
+    (chunkMx l (-1) (decide (A.1.cur.sn + -1 < A.1.ns))))
+  refine ⟨f3.trans (by rw [k1]; simp), ?_⟩
+  have e1 := f1; have e2 := f2
+  exact (show Doubled (chunkFinish l true (true && negLeftShift A.1 (-1)) _).st.cur
+    (chunkFinish l true (true && negLeftShift A.1 (-1)) _).st.fo by rw [e1, e2]; exact k2)
 
 end Soxr.Vr
